@@ -60,6 +60,11 @@ def c03(F, R):
     e7_containers.empty_emplacers(F, R)
     e7_containers.flex_writers(F, R)
     e1_layout.layout_rules(F, R)
+    # "whose bytes pass validation": what an emplacer leaves unspecified (spare capacity) must not be inspected by the validators
+    e7_containers.vec_string_validators(F, R)
+    e7_containers.flex_validator(F, R)
+    e7_containers.flex_reader(F, R)
+    e7_containers.array_validator(F, R)
 
 
 def c04(F, R):
